@@ -325,7 +325,7 @@ def gen (seed n : Nat) (tier : String) (emit : String → IO Unit) : IO Unit := 
       let junk := bs "JUNK"
       emit s!"rt flate {maxd} {junk.length} {predefStr pre} {hexOfBytes dictF} {hexOfBytes (junk ++ z)} {hexOfBytes data} => {memberWant b ps pre junk.length}"
     -- single-rule corruptions
-    let (mk, r16) := r.nat 12
+    let (mk, r16) := r.nat 13
     let (pos, r17) := r16.nat nobj
     let (x, r18) := r17.nat 1000
     r := r18
@@ -414,6 +414,18 @@ def gen (seed n : Nat) (tier : String) (emit : String → IO Unit) : IO Unit := 
       r := r20
       let dat := if x % 2 == 0 then data.take p else setNth data p nb
       emit (line "mut" "bytes" maxd pre dict dat "")
+    | 11 =>
+      -- a negative header number (`is_usize` guards `usize_val().unwrap()`); `-0` is zero and legal
+      let hs := mkHeader ps ws
+      match hs[pos]? with
+      | some e =>
+        let onId := x % 2 == 0
+        if (if onId then e.id else e.ofs) != 0 then
+          let mid := if onId then e.pre ++ [45] ++ natDigits e.id ++ e.mid ++ natDigits e.ofs
+                     else e.pre ++ natDigits e.id ++ e.mid ++ [45] ++ natDigits e.ofs
+          let h := encodeHeader (hs.take pos) ++ mid ++ encodeHeader (hs.drop (pos + 1)) ++ pad
+          emit (line "rej" "negative" maxd pre (bs s!"<</Type /ObjStm /N {nobj} /First {h.length}>>") (h ++ content) "")
+      | none => pure ()
     | _ =>
       -- one header number replaced by an arbitrary one: correspondence and no panic
       let v := if x % 4 == 0 then x else if x % 4 == 1 then content.length - x % (content.length + 1) else x % 7
